@@ -11,10 +11,10 @@ pub fn law<T: Serialize + Deserialize, const N: usize>(x: &T, buf: &mut [u8; N])
     assert!(n % ALIGN == 0, "C01 encoded size is word aligned");
     assert!(n == x.size_static() + x.size_dynamic(), "C01 size = static + dynamic");
     assert!(n <= N);
-    let mut out: &mut [u8] = &mut buf[..];
-    x.encode(&mut out).expect("C01 encode into a large enough buffer succeeds");
-    let written = N - out.len();
-    assert!(written == n, "C01 encode writes exactly size() bytes");
+    // a buffer of exactly size() bytes must suffice
+    let mut out: &mut [u8] = &mut buf[..n];
+    x.encode(&mut out).expect("C01 encode into a buffer of exactly size() bytes succeeds");
+    assert!(out.is_empty(), "C01 encode writes exactly size() bytes");
     let mut inp: &[u8] = &buf[..n];
     let y = T::decode(&mut inp).expect("C01 decode of an encoding succeeds");
     assert!(inp.is_empty(), "C01 decode consumes exactly the encoded bytes");
